@@ -141,12 +141,13 @@ func c02(r *core.Run) {
 			if !ok {
 				return
 			}
+			// the two name tables of the canonicaliser, by type: map[ssa.Value]string and map[*ssa.BasicBlock]string
 			f := ""
-			if _, ok := core.FieldLoad(mu.Map, "registerMap"); ok {
-				f = "registerMap"
+			if _, name, ok := fieldLoadBy(mu.Map, isValueStringMap); ok {
+				f = name
 			}
-			if _, ok := core.FieldLoad(mu.Map, "blockMap"); ok {
-				f = "blockMap"
+			if _, name, ok := fieldLoadBy(mu.Map, isBlockStringMap); ok {
+				f = name
 			}
 			if f == "" {
 				return
@@ -170,16 +171,14 @@ func c02(r *core.Run) {
 							if elems, ok := varargElems(x.Call.Args[1]); ok {
 								for _, e := range elems {
 									e = core.Unwrap(e)
-									if _, isField := core.FieldLoad(e, "regCounter"); isField {
+									if _, _, isCounter := fieldLoadBy(e, isIntegerType); isCounter {
+										continue // an integer counter field of the canonicaliser
+									}
+									if isLoopCounter(e) {
 										continue
 									}
-									if ph, isPhi := e.(*ssa.Phi); isPhi && ph.Comment == "rangeindex" {
+									if b, isBin := e.(*ssa.BinOp); isBin && isLoopCounter(b.X) {
 										continue
-									}
-									if b, isBin := e.(*ssa.BinOp); isBin {
-										if ph, isPhi := b.X.(*ssa.Phi); isPhi && ph.Comment == "rangeindex" {
-											continue
-										}
 									}
 									good, why = false, "name built from "+core.Canon(e)
 								}
@@ -261,7 +260,11 @@ func c02Self(r *core.Run) {
 					}
 					if ifi, ok := b.Instrs[len(b.Instrs)-1].(*ssa.If); ok {
 						if x, nonNilOnTrue, ok := core.NilCompare(ifi.Cond); ok {
-							if strings.Contains(core.Canon(x), ".subject") {
+							subj := x
+							if c, isCall := x.(*ssa.Call); isCall && isNestRoot(p, x) && len(c.Call.Args) == 1 {
+								subj = c.Call.Args[0] // the root of a non-nil subject is never nil
+							}
+							if base, _, isSubj := fieldLoadBy(subj, isSSAFunctionPtr); isSubj && strings.HasSuffix(core.Deref(base.Type()).String(), "ir.Canonicalizer") {
 								idx := 1
 								if !nonNilOnTrue {
 									idx = 0
@@ -309,7 +312,7 @@ func c02Self(r *core.Run) {
 	for _, fn := range p.FuncsIn("pkg/analysis/ir") {
 		core.InstrsOf(fn, func(in ssa.Instruction) {
 			if st, ok := in.(*ssa.Store); ok {
-				if fa, ok := st.Addr.(*ssa.FieldAddr); ok && core.FieldName(fa.X.Type(), fa.Field) == "subject" {
+				if fa, ok := st.Addr.(*ssa.FieldAddr); ok && isSSAFunctionPtr(deref1(fa.Type())) && strings.HasSuffix(core.Deref(fa.X.Type()).String(), "ir.Canonicalizer") {
 					if _, isParam := st.Val.(*ssa.Parameter); isParam {
 						set = true
 					}
